@@ -47,3 +47,25 @@ pub open spec fn typed_ids(blobs: Seq<IndexBlob>, n: int) -> Set<(BlobType, Blob
 {
     if n <= 0 { Set::empty() } else { typed_ids(blobs, n - 1).insert((blobs[n - 1].tpe, blobs[n - 1].id)) }
 }
+
+// ---- Packer::add_raw (used by repack / copy): a blob reaches the raw packer only if the shared indexer does not
+//      already have it UNDER THE PACKER'S OWN TYPE ----
+pub struct Bytes { pub data: Ghost<Seq<u8>> }
+pub type NonZeroU32 = u32;
+// Arc<RwLock<Indexer<BE>>>: `.read().unwrap()` gives shared access to the indexer
+pub struct SharedIndexer<BE: DecryptWriteBackend> { pub inner: Indexer<BE> }
+impl<BE: DecryptWriteBackend> SharedIndexer<BE> {
+    #[verifier::external_body]
+    pub fn vread(&self) -> (r: &Indexer<BE>) ensures *r == self.inner, { unimplemented!() }
+}
+pub struct VRawShared { pub _opaque: u64 }
+impl VRawShared {
+    // raw_packer.write().unwrap().add_raw(..): EFFECT AS PRECONDITION -- `known` is the indexer's dedup set at the call
+    #[verifier::external_body]
+    pub fn vadd_raw(&self, data: Bytes, id: &BlobId, data_len: u64, uncompressed_length: Option<NonZeroU32>,
+                    Ghost(known): Ghost<Option<Set<(BlobType, BlobId)>>>, Ghost(tpe): Ghost<BlobType>) -> (r: RusticResult<()>)
+        requires known matches Some(s) ==> !s.contains((tpe, *id)),
+    { unimplemented!() }
+}
+pub struct Packer<BE: DecryptWriteBackend> { pub raw_packer: VRawShared, pub indexer: SharedIndexer<BE>, pub blob_type: BlobType }
+pub open spec fn known_set<BE: DecryptWriteBackend>(ix: Indexer<BE>) -> Option<Set<(BlobType, BlobId)>> { match ix.indexed { Some(s) => Some(s.s@), None => None } }
